@@ -594,6 +594,16 @@ def gen_unit(rng, stream="M1"):
 _fresh_memo = {}
 
 
+def block_start():
+    """Defined process-wide state at the start of every block of units (and
+    of every replay): caches emptied, harness memos of same-process
+    references dropped (they are only pure if nothing leaks process-wide)."""
+    cold_restart()
+    _fresh_memo.clear()
+    from . import baton
+    baton._ref_memo.clear()
+
+
 def fresh_outcome(cfg, op):
     """Outcome of the op on brand-new objects (same process)."""
     if op["op"] in ("walk", "cold_restart"):
